@@ -246,7 +246,11 @@ def T(path, x):
   """z3 term of a number read back from output: a tag maps to its term, any
   other number is taken as the exact printed constant."""
   t = path.term_of_number(x)
-  return t if t is not None else core.rv(x)
+  if t is not None:
+    return t
+  if isinstance(x, core.SReal):
+    raise core.HarnessError("a proxy of another path leaked into the output")
+  return core.rv(x)
 
 
 class Sink(object):
